@@ -29,6 +29,28 @@ from pysyncobj.config import SyncObjConf as _Conf  # noqa: E402
 T0 = 1000000.0
 EPS = 0.001
 OBS = []          # observations of the step that is running
+
+
+class _RecordingLogger(object):
+    """Stands in for the module logger of syncobj.py: what the library reports as a failed snapshot load is an
+    observation of the step (everything else is dropped, as before: the harness never configured logging)."""
+
+    def __init__(self, real):
+        self._real = real
+
+    def exception(self, msg, *a, **kw):
+        if 'failed to load full dump' in str(msg):
+            import sys as _sys
+            et = _sys.exc_info()[0]
+            OBS.append(('load-failed', et.__name__ if et is not None else None))
+
+    def __getattr__(self, name):
+        return getattr(self._real, name)
+
+
+import pysyncobj.syncobj as _SO   # noqa: E402
+if not isinstance(_SO.logger, _RecordingLogger):
+    _SO.logger = _RecordingLogger(_SO.logger)
 SEND_CAP = 12     # sends per step after which the frozen clock is advanced (flood guard)
 
 
@@ -236,6 +258,10 @@ class Recorder(object):
 # --------------------------------------------------------------------------------------
 # Transport
 
+SENT_TO = {}             # messages written per peer in the running step
+SEND_FAIL = [None, None]  # (peer, k): the connection to peer breaks at its k-th write of the running step
+
+
 class SimTransport(Transport):
     """Harness-owned transport: send() hands the pickled message to the explorer iff this
     endpoint considers the peer connected."""
@@ -269,6 +295,14 @@ class SimTransport(Transport):
             seams.CLOCK[0] += 1.0
         wire = self._wire(node.id)
         if wire is None or wire not in self.connected:
+            return False
+        k = SENT_TO.get(wire, 0)
+        SENT_TO[wire] = k + 1
+        if SEND_FAIL[0] == wire and SEND_FAIL[1] == k:
+            # the write fails: like the TCP transport, the connection is torn down and the library is told at once,
+            # from inside send()
+            SEND_FAIL[0] = None
+            self.ev_disconnected(wire)
             return False
         self.outbox.append((wire, pickle.dumps(message, 2)))
         return True
@@ -572,7 +606,7 @@ class Config(object):
     def __init__(self, n=3, observers=0, batch=True, batch_bytes=2 ** 16, chunk=2 ** 16, journal=None,
                  dyn=False, obj='list', period=0.01, tmin=0.04, tmax=0.05, fallback=1e9, wait_leader=True,
                  qsize=1000, min_entries=1000000, exact_time=False, fuse=False, members=None, conf_extra=None,
-                 consumers=None, use_fork=False, h_all=False, methods=(), free_restart=True, spare=0, versions=(0, 1, 2), serializer=None, kill_only=None):
+                 consumers=None, use_fork=False, h_all=False, methods=(), free_restart=True, spare=0, versions=(0, 1, 2), serializer=None, kill_only=None, send_faults=False):
         self.n = n
         self.observers = observers
         self.batch = batch
@@ -598,6 +632,7 @@ class Config(object):
         self.versions = tuple(versions)
         self.spare = spare              # absent node ids that a membership change may add
         self.free_restart = free_restart   # restarts do not consume budget (kills do)
+        self.send_faults = send_faults     # HX events: a connection breaks in the middle of a multi-message send call
         self.kill_only = kill_only         # restrict kill events to these nodes (None: every journaled voter)
         self.methods = tuple(methods)   # extra replicated methods offered as submissions (besides put)
         self.h_all = h_all              # heartbeat-sized time steps on non-leaders too
@@ -830,11 +865,21 @@ def run_event(b, ev, cfg, kill_at=None):
     b.vfs.begin_step(kill_at=kill_at, on_kill=on_kill)
     b.tr.outbox = []
     b.tr.sends = 0
+    SENT_TO.clear()
+    SEND_FAIL[0] = None
     kind = ev[0]
     exc = None
     killed = False
     try:
-        if kind == 'tick':
+        if kind == 'tickx':
+            # ('tickx', dt, peer, k): a tick during which the k-th message to `peer` cannot be written
+            SEND_FAIL[0], SEND_FAIL[1] = ev[2], ev[3]
+            seams.CLOCK[0] += ev[1]
+            try:
+                b.so._onTick(0.0)
+            finally:
+                SEND_FAIL[0] = None
+        elif kind == 'tick':
             b.extra.pop('fresh', None)
             b.extra.pop('durable', None)
             seams.CLOCK[0] += ev[1]
@@ -1068,6 +1113,15 @@ class ClusterModel(object):
                 evs.append(('W', n))
             if bud['G'] > 0 and s.leader_flag:
                 evs.append(('G', n))
+            if bud['H'] > 0 and bud['X'] > 0 and s.leader_flag and self.cfg.send_faults:
+                # a heartbeat during which the connection to one peer breaks at the k-th write (only where the
+                # leader writes several messages to that peer in one call: chunks, batches)
+                outm = self.st.step(w.nk(n), ('tick', self.cfg.period + EPS))[1]
+                for p in sorted(s.connected):
+                    cnt = sum(1 for dst, _ in outm if dst == p)
+                    if cnt >= 2:
+                        for kk in range(1, cnt):
+                            evs.append(('HX', n, p, kk))
             if bud['S'] > 0:
                 evs.append(('S', n))
                 for meth in self.cfg.methods:
@@ -1222,6 +1276,15 @@ class ClusterModel(object):
         nw.ghost = tuple(ghost)
         return nw
 
+    def _hx(self, w, ev, budget):
+        a, p = ev[1], ev[2]
+        # messages written before the failure are on the wire (routed with the link still up); afterwards the link is gone
+        nw = self.node_step(w, a, ('tickx', self.cfg.period + EPS, p, ev[3]), budget=budget, label=ev)
+        if nw is None:
+            return None
+        links = set_queue(nw.links, p, a, ())
+        return World(nw.nodes, links, nw.phys - {pair(a, p)}, nw.budget, nw.ghost, nw.nsub)
+
     def apply(self, w, ev):
         kind = ev[0]
         cfg = self.cfg
@@ -1236,6 +1299,12 @@ class ClusterModel(object):
         if kind == 'F':
             b = self.spend(w, 'F')
             return b and self.node_step(w, ev[1], ('tick', cfg.fallback + EPS), budget=b, label=ev)
+        if kind == 'HX':
+            b = self.spend(w, 'H')
+            b = b and self.spend(World(w.nodes, w.links, w.phys, b, w.ghost, w.nsub), 'X')
+            if not b:
+                return None
+            return self._hx(w, ev, b)
         if kind == 'G':   # a tick after a little more than half a heartbeat period
             b = self.spend(w, 'G')
             return b and self.node_step(w, ev[1], ('tick', tick_dt(cfg, ev)), budget=b, label=ev)
@@ -1445,7 +1514,7 @@ def tick_dt(cfg, ev):
     k = ev[0]
     if k == 'Z':
         return 0.0
-    if k == 'H' or k == 'W':
+    if k == 'H' or k == 'W' or k == 'HX':
         return cfg.period + EPS
     if k == 'E':
         return cfg.tmin + EPS
